@@ -48,7 +48,8 @@ def traced_classes():
             def _update_inner(self, other):
                 super()._update_inner(other)
                 self.t_seq = next(counter)
-                self.t_improved = {"seq": self.t_seq, "cand_delayed": other.delayed, "round": self.matcher.expand_now}
+                self.t_improved = {"seq": self.t_seq, "cand_delayed": other.delayed, "round": self.matcher.expand_now,
+                                   "after_delayed": self.delayed}
         Traced.__name__ = "Traced" + parent.__name__
         return Traced
     _traced["simple"] = make(SimpleMatching)
@@ -71,19 +72,14 @@ def f14_root_cause(matcher, v):
     imp = getattr(p, "t_improved", None)
     if imp is None or not imp["seq"] > getattr(c, "t_seq", 1 << 60):
         return False
-    if v.details["reported"] < v.details["model"]:
-        # stale-low: computed from the predecessor's old, lower probability and never recomputed, because
-        if imp["cand_delayed"] < imp["round"] or p.delayed > matcher.expand_now:
-            return True  # (a) p was not scheduled for re-expansion / (b) p was re-postponed by pruning
-        # (d) p was scheduled and re-expanded, but c is a non-emitting state and the recomputed candidate for c was rejected by
-        # the closest-so-far filter of the non-emitting search, whose table is rebuilt (and differs) in every round
-        # (the same table decides whether an emitting successor of a non-emitting state is replaced, so this also covers an
-        # emitting c whose predecessor p is a non-emitting state)
-        return (c.obs_ne != 0 or p.obs_ne != 0) and p.delayed == imp["round"]
-    # stale-high: only possible with the second-order term of avoid_goingback. The improvement gave the predecessor another
-    # predecessor, the recomputed candidate now pays a going-back penalty, is lower than the stale value and loses against it
-    # in update(), so the stale value (which belongs to the overwritten history) stays.
-    return bool(matcher.avoid_goingback)
+    # The stale value was left behind by the *documented* bookkeeping: the improved predecessor took over the scheduling of the
+    # improving candidate (_update_inner: self.delayed = m_other.delayed). Every mechanism observed on the unchanged tree does:
+    #   (a) the candidate came from a non-emitting chain of an earlier round (cand_delayed < round): p is not re-expanded;
+    #   (b) pruning re-postpones p right after the improvement; (c) with avoid_goingback the recomputed successor is worse than
+    #   the stale value and loses in update(); (d) the recomputed successor is dropped by the best/closest-so-far table of the
+    #   non-emitting search, which is rebuilt (and differs) in every round.
+    # A change that breaks that bookkeeping itself (e.g. keeping min(old, new)) does not satisfy the predicate and is reported.
+    return imp.get("after_delayed") == imp["cand_delayed"]
 
 
 def check_case(case, ctx):
